@@ -614,7 +614,8 @@ Definition client_round_trip {A Q R} (transport : A -> Q -> R) (req_addr client_
 (* client.go ConsumerOffsets                                                  *)
 
 (* the OffsetFetch request built from the metadata answer: topic name asked for
-   and the partition ids of metadata.Topics[0]; None = index out of range panic *)
+   and the partition ids of metadata.Topics[0]; None = the metadata response lists no topic:
+   the call fails with an error before any OffsetFetch is sent *)
 Definition consumer_offsets_request (asked : str) (md : md_api) : option (str * list Z) :=
   match ma_topics md with
   | [] => None
